@@ -41,6 +41,9 @@ def strategy(tier, mode=None):
         else:
             c = draw(lossgen.loss_case(kinds=["Square"], weights=True, target_param="any-order", max_states=3, n_times=(3, 8), catalogue=1))
         c["part"] = "jtj" if mode in (None, "jtj") else "hessian"
+        if c["part"] == "jtj":
+            c["precalls"] = [{"fn": draw(st.sampled_from(["fisher_information", "gradient", "jtj", "sensitivity-full"])),
+                              "factor": draw(st.sampled_from([0.8, 1.0, 1.25]))} for _ in range(draw(st.sampled_from([0, 0, 1, 2])))]
         c["spread"] = None
         if c["part"] == "jtj" and not isinstance(c["weights"], list) and draw(st.integers(0, 2)) > 0:
             # the weighted JTJ is this part's subject: mostly non-scalar weights (per state, or per observation and state)
@@ -89,6 +92,23 @@ def oracle(case, rec):
         for i in range(n):
             Si = Sp[i][np.ix_(cols, pidx)] * W[i][:, None]
             want += Si.T.dot(Si)
+        # other curvature / gradient calls made earlier on the same loss object (at other parameters) must leave nothing behind
+        for pc in case.get("precalls") or []:
+            th_pc = np.array([v * pc["factor"] for v in free])
+            rec.label("precall:" + pc["fn"])
+            try:
+                if pc["fn"] == "fisher_information":
+                    obj.fisher_information(th_pc)
+                elif pc["fn"] == "gradient":
+                    obj.gradient(th_pc)
+                elif pc["fn"] == "jtj":
+                    obj.jtj(th_pc)
+                else:
+                    obj.sensitivity(th_pc, True)
+            except Exception as e:
+                # the earlier call is only there to leave state behind; whether IT works is not this property's subject
+                # (fisher_information raises a broadcasting ValueError with several observed states on the unchanged tree)
+                rec.label("precall-raised:%s:%s" % (pc["fn"], type(e).__name__))
         got = np.asarray(call("C20/jtj", case, obj.jtj, np.array(free)), float)
         if got.shape != want.shape:
             raise PropertyViolation("C20/jtj/shape", "jtj has shape %s for %d free parameters" % (got.shape, nf), case)
